@@ -96,6 +96,14 @@ def make_cases(c, focus, cfgs):
         for i in range(8 if c.tier == "quick" else 60):
             mode, lines = gen.gen_case(c.rng, plain[i % len(plain)], focus, mode="huge")
             cases.append(("h%d-%s-%s" % (i, plain[i % len(plain)].name, mode), lines))
+    # the same scripts through the front end frg::slab_allocator (script op `wrap`; the model is unchanged: wrapper ops =
+    # pool ops): every failure-injection case and every corpus case with a failing map, plus a sample of the others
+    wrapped = []
+    for k, (cid, lines) in enumerate(cases):
+        has_fail = any(l.endswith(" fail") for l in lines)
+        if (has_fail or k % 6 == 0) and not is_long(lines) and "sc" not in lines:
+            wrapped.append((cid + "-wrap", [lines[0], "wrap"] + lines[1:]))
+    cases += wrapped
     if c.tier == "thorough":
         if focus in ("C01", "C02"):
             cases += gen.long_corpus(cfgs)
@@ -118,7 +126,9 @@ def run(c, focus="C01"):
     for cid, ls in cases:
         c.count("slab_ops", len(ls) - 1)
         c.count("slab_cfg_" + (ls[0].split()[1] if ls and ls[0].startswith("cfg ") else "?"))
-        m = re.match(r"[gh]\d+-.*-(\w+)$", cid)
+        if cid.endswith("-wrap"):
+            c.count("slab_through_slab_allocator")
+        m = re.match(r"[gh]\d+-.*?-(\w+?)(-wrap)?$", cid)
         c.count("slab_mode_" + (m.group(1) if m else "corpus"))
         for l in ls[1:]:
             t = l.split()
